@@ -268,7 +268,7 @@ def await_parallel(eng, st, p, node):
         if _z is not None and z3.is_expr(_z) and not _z.eq(j) and not z3.substitute(_z, (j, _pr)).eq(_z):
             pats.append(_z)
     for ens_i, ens in enumerate(c.ensures):
-        if c.ensure_names[ens_i] in c.seq_only:
+        if c.ensure_names[ens_i] in c.seq_only or eng.mentions_local_ghost(ens):
             continue
         s2 = post.copy()
         s2.env = dict(env_j)
